@@ -7,6 +7,7 @@
              1  StrMap[string] from New()            values  B bytes
              2  Str2Str        from NewStr2Str()     values  B bytes
              3  Str2Str        zero value Str2Str{}  values  B bytes
+             4  StrMap[struct] from New()            values  I z (the harness builds the struct from z)
      step = (kind (key ...) (value ...) (probe ...))
        kind 0 LoadFromSlice(keys, values)   kind 1 LoadFromMap(map of the pairs)   kind 2 no load
    history output  (stepout ...),  stepout = (err len (probe-result ...) items nslots maxchain)
@@ -21,10 +22,16 @@
 
    sweep input     (9 lo count)         output (calcHashtableSlots(lo) ... ), -1 where it panics
 
+   big input       (8 variant n seed shape n2)   output (nmismatch len1 slots1 len2 slots2 maxchain)
+     key sets of 10^3..10^5 keys are compared with a Go map inside the harness (the list-encoded
+     model is quadratic); the model side checks the verdict, Len and the slot counts against [slots].
+
    The implementation hashes with a random seed; the model runs with a fixed arbitrary hash
-   (by C07_get_spec the observables do not depend on it), and for small histories a second time
-   with a hash that sends all keys of one length to one slot.  [specok] is computed from the plain
-   association list of the last successful load, never from the model. *)
+   (by C07_get_spec the observables do not depend on it) and the stable insertion sort, and for
+   small histories again with deliberately bad hashes -- all keys of one length in one slot with
+   the within-slot order reversed (an "unstable" sort result) and LoadFromMap visiting the pairs
+   in reverse order, and one constant hash (a single chain holding every item).  [specok] is computed from the plain association list of the last
+   successful load, never from the model. *)
 From GV Require Import Lib.Bytes Lib.Res Corr.Val Model.StrMap Model.StrStore Spec.StrMap.
 Open Scope Z_scope.
 
@@ -32,6 +39,11 @@ Definition poly_hash (s : bytes) : N :=
   fold_left (fun h b => N.land (h * 33 + b + 7) 1099511627775)%N s 5381%N.
 (* all keys of one length collide; the high half exercises the uint32 truncation *)
 Definition len_hash (s : bytes) : N := (len s * 4294967296 + len s)%N.
+
+(* every key in one slot: Get degenerates to a scan of all items; 2^32+... exercises uint32() *)
+Definition const_hash (s : bytes) : N := 4294967296 * 77 + 5.
+(* a sorted permutation whose equal-slot runs are in the reverse order of [isort]'s *)
+Definition rsort {V} (l : list (item V)) : list (item V) := isort (rev l).
 
 Definition val_eqb (a b : cval) : bool :=
   match a, b with
@@ -105,11 +117,14 @@ Definition obs_get {A} (inj : A -> cval) (r : res (option A)) : Z * cval :=
   | OOB => (3, I 0)
   end.
 
-Definition model_step (hash : bytes -> N) (st : inst) (s : step) : inst * sobs :=
+Definition model_step (hash : bytes -> N) (rv : bool) (st : inst) (s : step) : inst * sobs :=
   match st with
   | IMap m =>
     let '(m', r) :=
-      if s_kind s =? 2 then (m, Ok tt) else load hash isort m (s_keys s) (s_vals s) in
+      if s_kind s =? 2 then (m, Ok tt)
+      else if (s_kind s =? 1) && rv
+      then load_map hash rsort m (rev (combine (s_keys s) (s_vals s)))    (* some other visiting order *)
+      else load hash (if rv then rsort else isort) m (s_keys s) (s_vals s) in
     (IMap m',
      mksobs (rcode r) (Z.of_N (map_len m'))
             (map (fun p => obs_get (fun v => v) (get hash m' p)) (s_probes s))
@@ -117,7 +132,10 @@ Definition model_step (hash : bytes -> N) (st : inst) (s : step) : inst * sobs :
             (Z.of_N (len (table m'))))
   | IS2S t =>
     let '(t', r) :=
-      if s_kind s =? 2 then (t, Ok tt) else s2s_load hash isort t (s_keys s) (map vkey (s_vals s)) in
+      if s_kind s =? 2 then (t, Ok tt)
+      else if (s_kind s =? 1) && rv
+      then s2s_load_map hash rsort t (rev (combine (s_keys s) (map vkey (s_vals s))))
+      else s2s_load hash (if rv then rsort else isort) t (s_keys s) (map vkey (s_vals s)) in
     (IS2S t',
      mksobs (rcode r) (match s2s_len t' with Ok n => Z.of_N n | _ => -2 end)
             (map (fun p => obs_get B (s2s_get hash t' p)) (s_probes s))
@@ -125,11 +143,11 @@ Definition model_step (hash : bytes -> N) (st : inst) (s : step) : inst * sobs :
             (match s2s_map t' with Some m => Z.of_N (len (table m)) | None => -1 end))
   end.
 
-Fixpoint model_run (hash : bytes -> N) (st : inst) (ss : list step) : list sobs * inst :=
+Fixpoint model_run (hash : bytes -> N) (rv : bool) (st : inst) (ss : list step) : list sobs * inst :=
   match ss with
   | [] => ([], st)
-  | s :: r => let '(st', o) := model_step hash st s in
-              let '(os, fin) := model_run hash st' r in (o :: os, fin)
+  | s :: r => let '(st', o) := model_step hash rv st s in
+              let '(os, fin) := model_run hash rv st' r in (o :: os, fin)
   end.
 
 (* ---- spec side: a Go map ---- *)
@@ -197,22 +215,28 @@ Definition check (c : cval) : verdict :=
          (1000 + (if existsb (fun z => z =? -1) m then 1 else 0))
     | None => bad_case
     end
+  | L [L [I 8; I variant; I n; I seed; I shape; I n2]; L [I mism; I l1; I s1; I l2; I s2; I mc]] =>
+    let ok := (mism =? 0) && (l1 =? n) && (l2 =? n2) in
+    mk (ok && (s1 =? slots_obs (Z.to_N n)) && (s2 =? slots_obs (Z.to_N n2))) ok
+       (2000 + Z.log2 (Z.max 1 n) + (if mc <=? 1 then 0 else 100))
   | L [L [I variant; L steps]; L outs] =>
     match dec_all dec_step steps, dec_all dec_sobs outs with
     | Some ss, Some impl =>
-      let is_map := variant <? 2 in
+      let is_map := (variant <? 2) || (variant =? 4) in
       let init := if is_map then IMap new_map
                   else if variant =? 2 then IS2S new_s2s else IS2S zero_s2s in
-      let '(m1, fin) := model_run poly_hash init ss in
+      let '(m1, fin) := model_run poly_hash false init ss in
       let a1 := list_eqb (sobs_eqb true) m1 impl in
-      let a2 := if (total_keys ss <=? 300)%nat
-                then list_eqb (sobs_eqb true) (fst (model_run len_hash init ss)) impl else true in
+      let a2 := if (total_keys ss <=? 150)%nat
+                then list_eqb (sobs_eqb true) (fst (model_run len_hash true init ss)) impl else true in
+      let a3 := if (total_keys ss <=? 40)%nat
+                then list_eqb (sobs_eqb true) (fst (model_run const_hash false init ss)) impl else true in
       let sp := list_eqb (sobs_eqb false) (spec_run is_map [] ss) impl in
       let nfail := existsb (fun o => negb (o_err o =? 0)) m1 in
-      mk (a1 && a2) sp
-         (1 + variant + 4 * Z.min (inst_chain fin) 7
-          + (if nfail then 32 else 0)
-          + (if (2 <=? length ss)%nat then 64 else 0))
+      mk (a1 && a2 && a3) sp
+         (1 + variant + 8 * Z.min (inst_chain fin) 7
+          + (if nfail then 64 else 0)
+          + (if (2 <=? length ss)%nat then 128 else 0))
     | _, _ => bad_case
     end
   | _ => bad_case
